@@ -225,10 +225,14 @@ func (v *PacketDslVisitorImpl) VisitFieldDefinitionWithAttribute(ctx *gen.FieldD
 			if padChar == "'\\x00'" {
 				padChar = "'\x00'"
 			}
-			f.Attr.(*model.FixedStringFieldAttribute).Padding = &model.Padding{
+			// the attribute object may be shared (MetaData-typed fields all point at the entry's
+			// attribute): pad a copy so the attribute applies to this field only
+			fixedAttr := *f.Attr.(*model.FixedStringFieldAttribute)
+			fixedAttr.Padding = &model.Padding{
 				PadChar: padChar,
 				PadLeft: strings.Contains(fieldAttr.PaddingAttribute().PADDING_ATTR().GetText(), "left"),
 			}
+			f.Attr = &fixedAttr
 		case fieldAttr.TagAttribute() != nil:
 			tagValue := fieldAttr.TagAttribute().DIGITS().GetText()
 			tagInt, _ := strconv.Atoi(tagValue)
